@@ -14,14 +14,25 @@ Evs == Log[x].ev
 Ev == Evs[l]
 Entries(h) == [i \in 1..Len(h) |-> [a |-> h[i].a, ty |-> h[i].ty, old |-> h[i].old, new |-> h[i].new]]
 TInit == Init /\ x \in 1..Len(Log) /\ l = 1
-Observed == /\ pos' = Ev.pos /\ Entries(hist') = Ev.entries /\ out' = Ev.out
+\* end-to-end executions also log the parameters themselves: they are the model's store
+ParamsOk == IF "params" \notin DOMAIN Ev THEN TRUE ELSE \A a \in DOMAIN Ev.params : (IF a \in DOMAIN store' THEN store'[a].v ELSE 0) = Ev.params[a]
+Observed == /\ pos' = Ev.pos /\ Entries(hist') = Ev.entries /\ out' = Ev.out /\ ParamsOk
 StepRec == /\ Ev.op = "rec"
            /\ Record([a |-> Ev.a, ty |-> Ev.ty, old |-> Ev.old, new |-> Ev.new])
            /\ store' = [a \in DOMAIN store \cup {Ev.a} |-> IF a = Ev.a THEN [ty |-> Ev.ty, v |-> Ev.new] ELSE store[a]]
+\* end to end: a message to a parameter port (harness: the real macros).  The port must emit an /undo_change event exactly when the value
+\* changes, carrying the TRUE previous value; that event is what the history records (action Set of UndoHistory.tla)
+Cur(a) == IF a \in DOMAIN store THEN store[a].v ELSE 0
+StepSet == /\ Ev.op = "set" /\ Ev.matches = 1
+           /\ IF Cur(Ev.a) = Ev.v
+              THEN /\ ~ Ev.got_event /\ out' = <<>> /\ UNCHANGED <<hist, pos, store, clock>>
+              ELSE /\ Ev.got_event /\ Ev.ev_old = Cur(Ev.a) /\ Ev.ev_new = Ev.v
+                   /\ Record([a |-> Ev.a, ty |-> Ev.ty, old |-> Cur(Ev.a), new |-> Ev.v])
+                   /\ store' = [a \in DOMAIN store \cup {Ev.a} |-> IF a = Ev.a THEN [ty |-> Ev.ty, v |-> Ev.v] ELSE store[a]]
 StepSeek == Ev.op = "seek" /\ Seek(Ev.k)
 StepTick == Ev.op = "tick" /\ clock' = clock + Ev.d /\ out' = <<>> /\ UNCHANGED <<hist, pos, store>>
 Step == /\ l >= 1 /\ l <= Len(Evs)
-        /\ (StepRec \/ StepSeek \/ StepTick)
+        /\ (StepRec \/ StepSet \/ StepSeek \/ StepTick)
         /\ Observed
         /\ step' = [op |-> Ev.op] /\ l' = l + 1 /\ UNCHANGED x
 Stuck == /\ l >= 1 /\ l <= Len(Evs) /\ ~ ENABLED Step
